@@ -75,7 +75,7 @@ def main():
     for d in sorted(os.listdir(SEED)):
         if not re.fullmatch(r"C\d\d", d):
             continue
-        for x in "ABC":
+        for x in os.environ.get("SEED_LETTERS", "ABC"):
             src = os.path.join(SEED, d, "out", x)
             sid = "%s-%s%s" % (d, ROUND, x)
             if only and sid not in only and d not in only:
@@ -110,6 +110,8 @@ def main():
                                     "demo_exit_clean": c[0], "demo_exit_patched": c[1], "suite_with_patch": c[2]},
                 "clean_for": clean, "undecided_for": und, "false_alarms_now": alarm,
             }
+            if ROUND == "r6":
+                meta["author"] = meta["author"].replace("a behaviour-preserving refactoring", "a behaviour-preserving refactoring of the extract / move / wrap family (helpers, small classes, records, generator helpers)")
             if ROUND == "r5":
                 meta["author"] = meta["author"].replace("a behaviour-preserving refactoring", "a larger behaviour-preserving refactoring (several functions or a whole class reshaped)")
                 meta["false_alarms_at_first_contact"] = FIRST_CONTACT_R5.get("%s-%s" % (d, x), "").split()
